@@ -194,7 +194,7 @@ Qed.
 
 Lemma growth_step_NU : forall S e, net_ok S -> NUs S -> is_growth e = true -> NUs (fst (step S e)).
 Proof.
-  intros S e Hok HNU Hg. destruct e as [i j | i j adv | i j | i j | i | i]; simpl in Hg; try discriminate.
+  intros S e Hok HNU Hg. destruct e as [i j | i j adv | i j adv | i j | i j | i | i]; simpl in Hg; try discriminate.
   - (* Fetch *)
     assert (Hat : at_g (topo_of S) S) by (split; [exact Hok | reflexivity]).
     pose proof (NU_fetch (topo_of S) S i j Hat HNU) as H.
